@@ -8,7 +8,8 @@ from mc.engine import Viol
 
 PROP = "C01"
 MB = 1 << 20
-LENGTHS = [0, 1, 2, MB - 1, MB, MB + 1, 2 * MB - 1, 2 * MB, 2 * MB + 1, 3 * MB + 17]
+# (3..241: the input-length classes of the XXH3 family: 1-3, 4-8, 9-16, 17-128, 129-240, > 240 bytes; 1024/1025: its stripe block)
+LENGTHS = [0, 1, 2, 3, 4, 8, 9, 16, 17, 128, 129, 240, 241, 1024, 1025, MB - 1, MB, MB + 1, 2 * MB - 1, 2 * MB, 2 * MB + 1, 3 * MB + 17]
 KINDS = ["zeros", "ff", "pattern"]
 
 
@@ -80,7 +81,7 @@ def eval_case(ctx, case):
             if raw != ref.raw_of(fmt, want[fmt]):
                 v.append(Viol(PROP, "decode-mismatch", dict(base_sig, fmt=fmt), f"bytes_for_hash_string({want[fmt]}, {fmt}) = {raw.hex()}", case))
             # streaming update split at every boundary length
-            for k in [x for x in LENGTHS if 0 < x < n][:6] + ([n // 2] if n > 1 else []):
+            for k in ([x for x in LENGTHS if 0 < x < n and x >= MB - 1] + [x for x in (1, 16, 240) if x < n])[:6] + ([n // 2] if n > 1 else []):
                 hs = H.new_hasher_for_hash_type(fmt)
                 hs.update(data[:k])
                 hs.update(data[k:])
@@ -401,7 +402,7 @@ def main(tier, seed):
     eng.sample({"c4_value_hex": "%x" % fam[len(fam) // 2]})
     cov = {"evaluations": evals, "distinct_nontrivial": distinct, "exhaustive": True, "format_sets": len(sets),
            "lengths": lengths, "contents": kinds, "c4_codec_values": len(fam),
-           "rule": "product lengths {0,1,2, 1MiB-1, 1MiB, 1MiB+1, 2MiB-1, 2MiB, 2MiB+1, 3MiB+17} x contents x format sets (quick: "
+           "rule": "product lengths {0,1,2, the XXH3 length classes 3,4,8,9,16,17,128,129,240,241,1024,1025, 1MiB-1, 1MiB, 1MiB+1, 2MiB-1, 2MiB, 2MiB+1, 3MiB+17} x contents x format sets (quick: "
                    "singletons, pairs, full set + reversed; thorough: all 127 non-empty subsets of the 7 library formats in "
                    "ascending and descending order) x entry points {hash_file, hash_data, streaming update split at each boundary, "
                    "multiple_format_hash_file, multiple_format_hash_data, bytes_for_hash_string, ascmhl-debug hash, create, verify; the same path "
